@@ -163,6 +163,7 @@ def run_property(prop, tier, seed):
             out_of_reach.append({'function': target, 'reason': str(e)})
             del eng.obligations[z3_before:]
             eng.cur_root_target_inline = None
+            eng.cur_inline_callees = ()
     # lemmas
     for lp, name, fn in R.lemmas:
         if lp == prop:
@@ -176,6 +177,8 @@ def run_property(prop, tier, seed):
     extra_info = {}
     if hasattr(mod, 'extra_obligations'):
         extra_info = mod.extra_obligations(eng, R, tier) or {}
+    # obligation-level attribution: keep what belongs to this property
+    eng.obligations = [o for o in eng.obligations if prop in o.props or not o.props]
     obls = eng.obligations
     timeout = 10 if tier == 'quick' else 60
     trivial = discharge(obls, timeout_s=timeout)
